@@ -36,6 +36,10 @@ STARTS = {
                  ('add_association', 'Peer', (0, 1), (0,)), ('add_asset', 'Data', None, None, True),
                  ('add_association', 'Holds', (0,), (2,)), ('add_attacker', None), ('add_entry_point', 0, 0, 'access'),
                  ('add_entry_point', 0, 2, 'read')],
+    # an attacker holds an entry point on an object that was removed, while a new asset re-uses its id
+    'stale_ep': [('add_asset', 'Host', None, None, True), ('add_asset', 'Data', 'n', None, True), ('remove_asset', 0),
+                 ('add_asset', 'Host', None, 0, True), ('add_attacker', None), ('add_entry_point', 0, 0, 'access'),
+                 ('add_entry_point', 0, 1, 'read')],
 }
 
 
@@ -59,9 +63,9 @@ def make_system(name):
 
 
 PLANS = {
-    'quick': [('OPS', 6, 0), ('OPS', 4, 1), ('OPS', 3, 2), ('OPS2', 4, 1), ('OPS@twins', 2, 1), ('OPS@selfpair', 2, 1)],
+    'quick': [('OPS', 6, 0), ('OPS', 4, 1), ('OPS', 3, 2), ('OPS2', 4, 1), ('OPS@twins', 2, 1), ('OPS@selfpair', 2, 1), ('OPS@stale_ep', 2, 1)],
     'thorough': [('OPS', 7, 0), ('OPS', 6, 1), ('OPS', 5, 2), ('OPS2', 5, 1), ('OPS2', 4, 2), ('coreLang', 4, 1),
-                 ('OPS@twins', 3, 2), ('OPS@selfpair', 3, 2)],
+                 ('OPS@twins', 3, 2), ('OPS@selfpair', 3, 2), ('OPS@stale_ep', 3, 2)],
 }
 
 
